@@ -38,5 +38,5 @@ class PythonHeaderParser(BaseHeaderParser):
         try:
             tree = ast.parse(code)
             return ast.get_docstring(tree)
-        except SyntaxError:
+        except (SyntaxError, RecursionError, MemoryError):
             return None
